@@ -323,6 +323,14 @@ func (v *verifWalker) walkInvocation(scq *sizeClassQueue, i *invocation, parent 
 			v.fail("invocation %s: queued operation %s is not in operationsNameMap", name, o.name)
 		}
 	}
+	// The queued operations form a binary heap under the documented order
+	// (priority, longest expected duration, oldest): every entry sorts no
+	// earlier than its parent.
+	for idx := 1; idx < len(i.queuedOperations); idx++ {
+		if i.queuedOperations.Less(idx, (idx-1)/2) {
+			v.fail("invocation %s: queued operations heap out of order: entry %d (%s) sorts before its parent entry %d (%s)", name, idx, i.queuedOperations[idx].name, (idx-1)/2, i.queuedOperations[(idx-1)/2].name)
+		}
+	}
 	// Children.
 	queuedChildren := 0
 	idleChildren := 0
